@@ -402,13 +402,25 @@ int harnessMain(int argc, char** argv, const HarnessDef& def) {
     _exit(code);
   };
 
+  // per-case watchdog: a case that does not come back (C10: "never hangs") ends the process with a
+  // recognisable report instead of blocking the campaign. 60 s of real time is three to four orders of
+  // magnitude above a normal case (VP_CASE_TIMEOUT overrides it).
+  static long watchdog_s = getenv("VP_CASE_TIMEOUT") ? atol(getenv("VP_CASE_TIMEOUT")) : 60;
+  signal(SIGALRM, [](int) {
+    static const char msg[] = "\nVP-WATCHDOG: the case did not finish within the watchdog time (hang)\n";
+    if (::write(2, msg, sizeof msg - 1) < 0) {
+    }
+    abort();
+  });
   if (mode == "replay") {
     if (argc < 3) return 2;
     Json::Value c = jload(argv[2]);
     if (c.isMember("case")) {
       c = c["case"];
     }
+    alarm((unsigned)watchdog_s);
     Verdict v = def.run(c);
+    alarm(0);
     Json::Value out(Json::objectValue);
     out["ok"] = v.ok;
     out["why"] = v.why;
@@ -431,7 +443,9 @@ int harnessMain(int argc, char** argv, const HarnessDef& def) {
     if (!cur.empty()) {
       jsave(cur, c);
     }
+    alarm((unsigned)watchdog_s);
     Verdict v = def.run(c);
+    alarm(0);
     if (!camp.failed) {
       camp.note(c, v);
     }
